@@ -166,6 +166,32 @@ Example c08_example_interleaved_fields :
     = Some ([], ["len"; "bump"; "clone"; "len"]).
 Proof. vm_compute. split; reflexivity. Qed.
 
+(* a composite whose OWN shape fails (another variant, a length the slice pattern does not fit) reports one entry and evaluates no chain
+   and no operand of its children - they are never tested against a value they were not written for; the composite's own value expression
+   is evaluated for the test and once more for the message (the recorded finding C08-fail-path-double-eval) *)
+Theorem c08_wrong_variant_evaluates_no_child : forall j id path el elems e en rep tr v t n args nm,
+  eval en e = Some (v, t) -> path_last path = Some nm -> peel v = VVariantV n args -> String.eqb n nm = false ->
+  exec (expand j (PEnum id path (el :: elems)) e) en = Some (rep, tr) ->
+  OrderP.mlist tr = OrderP.vmeths e ++ OrderP.vmeths e /\ List.length rep = 1%nat.
+Proof. exact OrderP.wrong_variant_evaluates_no_child. Qed.
+Print Assumptions c08_wrong_variant_evaluates_no_child.
+
+Theorem c08_wrong_length_slice_evaluates_no_child : forall j id sp elems e en rep tr v t vs,
+  eval en e = Some (v, t) -> elements_of v = Some vs ->
+  slice_match (mapi (fun i el => if is_rest_range el then SPRest else if is_wild el then SPWild else SPBind i) elems) vs = Some None ->
+  exec (expand j (PSlice id sp elems) e) en = Some (rep, tr) ->
+  OrderP.mlist tr = OrderP.vmeths e ++ OrderP.vmeths e /\ List.length rep = 1%nat.
+Proof. exact OrderP.wrong_length_slice_evaluates_no_child. Qed.
+Print Assumptions c08_wrong_length_slice_evaluates_no_child.
+
+(* non-vacuity: `Some(> 3)` applied to `root.clone()` where the root is None: one entry; clone is called for the test and for the message *)
+Example c08_example_wrong_variant :
+  let e := VMethod SCall (VRoot []) "clone" SCall [] in
+  option_map (fun rt => (List.length (fst rt), OrderP.mlist (snd rt)))
+    (exec (expand true (PEnum 0 (pth "Some") [(None, PCmp 1 OpGt SCall (ulit "3"))]) e) (env0 (VVariantV "None" []) []))
+  = Some (1%nat, ["clone"; "clone"]).
+Proof. vm_compute. reflexivity. Qed.
+
 (* recorded finding C08-accept-everything-patterns-evaluate-nothing, as the model has it: a chain in front of a pattern that asserts
    nothing is not evaluated (0 calls of the written method), and `_ { .. }` / `#{ .. }` at the root do not evaluate the root *)
 Lemma known_c08_chain_under_wildcard_not_evaluated :
